@@ -559,9 +559,21 @@ const (
 	SocialOnly ActorKind = iota
 	FederatingOnly
 	Both
+	// pub.NewCustomActor over the application's own DelegateActor (delegate.go), with neither / one /
+	// both protocols switched on
+	CustomNeither
+	CustomSocial
+	CustomFederating
+	CustomBoth
 )
 
-func (k ActorKind) String() string { return [...]string{"social", "federating", "both"}[k] }
+func (k ActorKind) String() string {
+	return [...]string{"social", "federating", "both", "custom-neither", "custom-social", "custom-federating", "custom-both"}[k]
+}
+
+// Social / Federated report which protocols the kind has switched on.
+func (k ActorKind) Social() bool    { return k == SocialOnly || k == Both || k == CustomSocial || k == CustomBoth }
+func (k ActorKind) Federated() bool { return k == FederatingOnly || k == Both || k == CustomFederating || k == CustomBoth }
 
 // Actor builds a pub.Actor of the requested kind over this application.
 func (a *App) Actor(k ActorKind) pub.Actor {
@@ -589,6 +601,8 @@ func (a *App) Actor(k ActorKind) pub.Actor {
 		act = pub.NewSocialActor(Common{a}, Social{a}, DB{a}, Clk{a})
 	case FederatingOnly:
 		act = pub.NewFederatingActor(Common{a}, Fed{a}, DB{a}, Clk{a})
+	case CustomNeither, CustomSocial, CustomFederating, CustomBoth:
+		act = pub.NewCustomActor(Deleg{a}, k.Social(), k.Federated(), Clk{a})
 	default:
 		act = pub.NewActor(Common{a}, Social{a}, Fed{a}, DB{a}, Clk{a})
 	}
